@@ -1838,7 +1838,119 @@ def _mm_movemask_epi8(m, a):
     return sum(((x >> 7) & 1) << i for i, x in enumerate(c))
 
 
+# ---- AES-NI, from the instruction definitions of the Intel SDM (vol. 2A); the S-box is computed, not copied
+def _gf8_mul(a, b):
+    r = 0
+    while b:
+        if b & 1:
+            r ^= a
+        a = ((a << 1) ^ 0x11B) if a & 0x80 else a << 1
+        b >>= 1
+    return r
+
+
+def _make_sbox():
+    sb = [0] * 256
+    for x in range(256):
+        inv = 0
+        if x:
+            for y in range(1, 256):
+                if _gf8_mul(x, y) == 1:
+                    inv = y
+                    break
+        v = inv
+        for k in range(1, 5):
+            v ^= ((inv << k) | (inv >> (8 - k))) & 0xFF
+        sb[x] = v ^ 0x63
+    return sb
+
+
+_SBOX = []
+_ISBOX = []
+
+
+def _sboxes():
+    if not _SBOX:
+        _SBOX.extend(_make_sbox())
+        inv = [0] * 256
+        for i, v in enumerate(_SBOX):
+            inv[v] = i
+        _ISBOX.extend(inv)
+    return _SBOX, _ISBOX
+
+
+def _cb(v):
+    c = _vcells(v)
+    if not all(isinstance(x, int) for x in c):
+        raise Undecided("AES-NI instruction on symbolic or uninitialised bytes")
+    return list(c)
+
+
+def _shift_rows(s, inv=False):
+    # byte i of the register is row i % 4 of column i // 4
+    out = [0] * 16
+    for c in range(4):
+        for r in range(4):
+            src = (c - r) % 4 if inv else (c + r) % 4
+            out[4 * c + r] = s[4 * src + r]
+    return out
+
+
+def _mix_columns(s, inv=False):
+    m = ((14, 11, 13, 9), (9, 14, 11, 13), (13, 9, 14, 11), (11, 13, 9, 14)) if inv else ((2, 3, 1, 1), (1, 2, 3, 1), (1, 1, 2, 3), (3, 1, 1, 2))
+    out = [0] * 16
+    for c in range(4):
+        col = s[4 * c: 4 * c + 4]
+        for r in range(4):
+            v = 0
+            for k in range(4):
+                v ^= _gf8_mul(col[k], m[r][k])
+            out[4 * c + r] = v
+    return out
+
+
+def _aes_round(kind):
+    def f(m, a):
+        sb, isb = _sboxes()
+        s, rk = _cb(a[0]), _cb(a[1])
+        if kind in ("enc", "enclast"):
+            s = [sb[x] for x in _shift_rows(s)]
+            if kind == "enc":
+                s = _mix_columns(s)
+        else:
+            s = [isb[x] for x in _shift_rows(s, inv=True)]
+            if kind == "dec":
+                s = _mix_columns(s, inv=True)
+        return _vec([x ^ y for x, y in zip(s, rk)])
+    return f
+
+
+def _aeskeygenassist(m, a):
+    sb, _ = _sboxes()
+    s, rcon = _cb(a[0]), _imm(a, 1) & 0xFF
+    x1, x3 = s[4:8], s[12:16]
+    sw1, sw3 = [sb[x] for x in x1], [sb[x] for x in x3]
+    rot = lambda w: w[1:] + w[:1]
+    r1, r3 = rot(sw1), rot(sw3)
+    r1[0] ^= rcon
+    r3[0] ^= rcon
+    return _vec(sw1 + r1 + sw3 + r3)
+
+
+def _mm_set1_epi32(m, a):
+    c = to_bytes_le(a[0], 4)
+    return _vec(c * 4)
+
+
 BUILTINS = {
+    "_mm_aesenc_si128": _aes_round("enc"), "_mm_aesenclast_si128": _aes_round("enclast"),
+    "_mm_aesdec_si128": _aes_round("dec"), "_mm_aesdeclast_si128": _aes_round("declast"),
+    "__builtin_ia32_aesenc128": _aes_round("enc"), "__builtin_ia32_aesenclast128": _aes_round("enclast"),
+    "__builtin_ia32_aesdec128": _aes_round("dec"), "__builtin_ia32_aesdeclast128": _aes_round("declast"),
+    "_mm_aesimc_si128": lambda m, a: _vec(_mix_columns(_cb(a[0]), inv=True)), "__builtin_ia32_aesimc128": lambda m, a: _vec(_mix_columns(_cb(a[0]), inv=True)),
+    "_mm_aeskeygenassist_si128": _aeskeygenassist, "__builtin_ia32_aeskeygenassist128": _aeskeygenassist,
+    "_mm_set1_epi32": _mm_set1_epi32,
+    "_mm_cvtsi128_si32": lambda m, a: int.from_bytes(bytes(_cb(a[0])[:4]), "little"),
     "_mm_clmulepi64_si128": _mm_clmul, "__builtin_ia32_pclmulqdq128": _mm_clmul,
     "_mm_shuffle_epi32": _mm_shuffle_epi32, "_mm_shuffle_epi8": _mm_shuffle_epi8,
     "_mm_slli_epi64": _lanes64(lambda v, n: 0 if n > 63 else v << n), "_mm_srli_epi64": _lanes64(lambda v, n: 0 if n > 63 else v >> n),
